@@ -602,3 +602,155 @@ Theorem C14_tr_buf_handed_over : forall m p cs d fuel, TrSubst.sb_inv m p cs ->
     nth_error m' b = Some (map CLite.VInt cs ++ CLite.VInt 0 :: rest) /\ TrSbuf.sbuf_step m m' p.
 Proof. exact TrSubst.sb_buf. Qed.
 Print Assumptions C14_tr_buf_handed_over.
+
+(* ------------------------------------------------------------------------------------------------
+   Round i/j: the remembered pattern (xkwd, xkwddir) between the ADDRESSES of :s and the command itself
+   (model coq/SubstAddrDefs.v, proofs coq/SubstAddrProps.v, order of the C text coq/TrSubstOrder.v).
+   ex_region() evaluates a /re/ or ?re? address through ex_search(), which stores re in the same static buffer the command's
+   own pattern goes to (ex_kwdset) and from which ec_substitute fetches the pattern it compiles (ex_kwd).  The model mirrors the
+   order of the C text -- address first, then the command's own ex_kwdset, then ex_kwd -- for ex_kwd / ex_kwdset / ex_search /
+   ex_lineno / ex_region and the head of ec_substitute (SubstAddrDefs.subst_head; its argument handling is SubstDefs.subst_args,
+   the function C14_tr_subst_args ties to the C text), and the whole command over the list of lines (SubstAddrDefs.ec_subst: per
+   line SubstDefs.subst_line, the function of C14_structure).  valid = rstr_make succeeds, find = the matcher (a parameter as
+   everywhere in this file), buf = the lines with their newline; state = (xkwd, xkwddir, xrep, xrow); a_region answers
+   Some (rejected, beg, end, state after the address) -- None is the model's out-of-fuel outcome of the address loop. *)
+From NV Require Import SubstAddrDefs.
+From NV Require SubstAddrProps TrSubstOrder.
+
+(* A NON-EMPTY own pattern: behind ANY accepted address -- whatever searches it contained and whatever they stored -- the pattern
+   compiled is the own pattern, the lines are those of the address, and afterwards the own pattern (direction +1) and the own
+   replacement are what is remembered.  The state k1 the address left shows in the result only through the current row. *)
+Theorem C14_addr_own_pattern : forall valid find buf loc arg k c p rep flags b e k1,
+  subst_args arg = (Some (c :: p), rep, flags) ->
+  a_region valid find buf loc k = Some (false, b, e, k1) ->
+  let r := match rep with Some r => r | None => [] end in
+  subst_head valid find buf loc arg k = Some (mk_kst (c :: p) 1 r (k_row k1), Some (b, e, c :: p, has_g flags)) /\
+  ec_subst valid find buf loc arg k =
+    Some (mk_kst (c :: p) 1 r (k_row k1),
+          if valid (c :: p) then subst_rows find 0 b e (c :: p) r (has_g flags) buf else buf,
+          if valid (c :: p) then 0%Z else 1%Z).
+Proof.
+  intros. split; [eapply SubstAddrProps.own_pattern; eassumption | eapply SubstAddrProps.own_pattern_cmd; eassumption].
+Qed.
+Print Assumptions C14_addr_own_pattern.
+
+(* ... so two addresses that designate the same lines -- one numeric, one made of searches, typed in any state of the remembered
+   pattern -- give the same buffer, the same return value and the same remembered pattern, direction and replacement *)
+Theorem C14_addr_own_pattern_any_address : forall valid find buf loc loc' arg k k' c p rep flags b e k1 k1',
+  subst_args arg = (Some (c :: p), rep, flags) ->
+  a_region valid find buf loc k = Some (false, b, e, k1) ->
+  a_region valid find buf loc' k' = Some (false, b, e, k1') ->
+  exists s s' buf' ret,
+    ec_subst valid find buf loc arg k = Some (s, buf', ret) /\
+    ec_subst valid find buf loc' arg k' = Some (s', buf', ret) /\
+    k_kwd s = c :: p /\ k_kwd s' = c :: p /\ k_dir s = 1%Z /\ k_dir s' = 1%Z /\ k_rep s = k_rep s'.
+Proof. exact SubstAddrProps.own_pattern_any_address. Qed.
+Print Assumptions C14_addr_own_pattern_any_address.
+
+(* An EMPTY own pattern (s//rep/) and no argument at all (a bare s): what the ADDRESS left behind is compiled and stays remembered
+   (nothing remembered = error return); the bare command keeps the remembered replacement as well and has no g flag *)
+Theorem C14_addr_empty_pattern : forall valid find buf loc arg k rep flags b e k1,
+  subst_args arg = (Some [], rep, flags) ->
+  a_region valid find buf loc k = Some (false, b, e, k1) ->
+  subst_head valid find buf loc arg k =
+    Some (set_rep k1 (match rep with Some r => r | None => [] end),
+          if (k_dir k1 =? 0)%Z then None else Some (b, e, k_kwd k1, has_g flags)).
+Proof. exact SubstAddrProps.empty_pattern. Qed.
+Print Assumptions C14_addr_empty_pattern.
+Theorem C14_addr_bare_command : forall valid find buf loc k b e k1,
+  a_region valid find buf loc k = Some (false, b, e, k1) ->
+  subst_head valid find buf loc [] k = Some (k1, if (k_dir k1 =? 0)%Z then None else Some (b, e, k_kwd k1, false)).
+Proof. exact SubstAddrProps.bare_command. Qed.
+Print Assumptions C14_addr_bare_command.
+
+(* a rejected address (failed search, lines outside the buffer): the command does nothing and remembers nothing of its own --
+   what the searches of the address stored stays stored *)
+Theorem C14_addr_rejected : forall valid find buf loc arg k b e k1,
+  a_region valid find buf loc k = Some (true, b, e, k1) -> ec_subst valid find buf loc arg k = Some (k1, buf, 1%Z).
+Proof. exact SubstAddrProps.rejected_address. Qed.
+Print Assumptions C14_addr_rejected.
+
+(* What an address leaves behind.  Without a / or ? in it: the remembered pattern, its direction and the replacement as they were
+   (so  Ns//x/  after a substitution reuses that substitution's pattern).  /re/ or ?re? first, re non-empty and free of its
+   delimiter and of backslashes, followed by anything without a further search (offsets, ",$", ";+1", ...): re with the direction
+   of the delimiter -- found or not, accepted or not. *)
+Theorem C14_addr_without_search_keeps : forall valid find buf loc k bad b e k1,
+  SubstAddrProps.nosearch loc -> a_region valid find buf loc k = Some (bad, b, e, k1) ->
+  k_kwd k1 = k_kwd k /\ k_dir k1 = k_dir k /\ k_rep k1 = k_rep k.
+Proof. exact SubstAddrProps.region_nosearch. Qed.
+Print Assumptions C14_addr_without_search_keeps.
+Theorem C14_addr_search_stores : forall valid find buf k d re tail bad b e k1,
+  (d = 47 \/ d = 63) -> plain d re -> re <> [] -> SubstAddrProps.nosearch tail ->
+  a_region valid find buf (d :: re ++ d :: tail) k = Some (bad, b, e, k1) ->
+  k_kwd k1 = re /\ k_dir k1 = (if d =? 47 then 1%Z else (-1)%Z) /\ k_rep k1 = k_rep k.
+Proof. exact SubstAddrProps.region_search_first. Qed.
+Print Assumptions C14_addr_search_stores.
+
+(* the idiom /re/s//new/ : the address pattern IS the pattern compiled, and it stays remembered *)
+Theorem C14_addr_search_then_empty_pattern : forall valid find buf k d re tail arg rep flags b e k1,
+  (d = 47 \/ d = 63) -> plain d re -> re <> [] -> SubstAddrProps.nosearch tail ->
+  subst_args arg = (Some [], rep, flags) ->
+  a_region valid find buf (d :: re ++ d :: tail) k = Some (false, b, e, k1) ->
+  exists k', subst_head valid find buf (d :: re ++ d :: tail) arg k = Some (k', Some (b, e, re, has_g flags)) /\ k_kwd k' = re.
+Proof. exact SubstAddrProps.search_then_empty_pattern. Qed.
+Print Assumptions C14_addr_search_then_empty_pattern.
+
+(* the head behind an accepted address IS SubstDefs.subst_setup (C14_reuse, the C14_gflag theorems) run on the state the address left *)
+Theorem C14_addr_head_is_setup : forall valid find buf loc arg k b e k1,
+  a_region valid find buf loc k = Some (false, b, e, k1) ->
+  exists k', subst_head valid find buf loc arg k =
+               Some (k', match snd (fst (subst_setup (to_sstate k1) arg)) with
+                         | Some p => Some (b, e, p, snd (subst_setup (to_sstate k1) arg))
+                         | None => None
+                         end) /\
+             to_sstate k' = fst (fst (subst_setup (to_sstate k1) arg)) /\ k_row k' = k_row k1.
+Proof. exact SubstAddrProps.head_is_setup. Qed.
+Print Assumptions C14_addr_head_is_setup.
+
+(* THE C TEXT has this order: in the translated body of ec_substitute (GenCFuncs.cf_ec_substitute, printed by tools/c2clite.py)
+   statement 4 is  if (ex_region(loc, &beg, &end)) return 1;  statements 5-7 read the pattern, call ex_kwdset for a non-empty one
+   and read the replacement, 8-10 are the snprintf into xrep and the two free calls, 11 is  if (ex_kwd(&pat, NULL)) return 1;
+   and 12 compiles what ex_kwd handed back.  Moving the ex_region call behind the argument handling (seed C14j) breaks this. *)
+Theorem C14_tr_head_order :
+  TrSubstOrder.nth_seq 4 (CLite.fn_body GenCFuncs.cf_ec_substitute) = TrSubstOrder.eo_region /\
+  TrSubstOrder.nth_seq 5 (CLite.fn_body GenCFuncs.cf_ec_substitute) = TrSubstOrder.eo_pat /\
+  TrSubstOrder.nth_seq 6 (CLite.fn_body GenCFuncs.cf_ec_substitute) = TrSubstOrder.eo_kwdset /\
+  TrSubstOrder.nth_seq 7 (CLite.fn_body GenCFuncs.cf_ec_substitute) = TrSubstOrder.eo_rep /\
+  (exists gx gf ge, TrSubstOrder.nth_seq 8 (CLite.fn_body GenCFuncs.cf_ec_substitute) = TrSubstOrder.eo_xrep gx gf ge) /\
+  TrSubstOrder.nth_seq 9 (CLite.fn_body GenCFuncs.cf_ec_substitute) = TrSubstOrder.eo_free1 /\
+  TrSubstOrder.nth_seq 10 (CLite.fn_body GenCFuncs.cf_ec_substitute) = TrSubstOrder.eo_free2 /\
+  TrSubstOrder.nth_seq 11 (CLite.fn_body GenCFuncs.cf_ec_substitute) = TrSubstOrder.eo_kwd /\
+  (exists gic, TrSubstOrder.nth_seq 12 (CLite.fn_body GenCFuncs.cf_ec_substitute) = TrSubstOrder.eo_make gic).
+Proof. exact TrSubstOrder.head_order. Qed.
+Print Assumptions C14_tr_head_order.
+
+(* non-vacuity, with a matcher for literal patterns (first occurrence) on the buffer  top / x foo x / x bar x / x foo x  and nothing
+   remembered, current row 0:
+     /foo/s/x/y/        -> line 2 becomes "y foo x" (NOT "x y x"), "x" is remembered, direction +1
+     /foo/s//y/         -> line 2 becomes "x y x", "foo" stays remembered
+     1,/bar/s/x/y/g     -> lines 1-3, every x of them
+     /foo/;/bar/s//Z/   -> two searches: the LAST one (bar) is reused; lines 2-3, only line 3 has it
+     4;?bar?,.s//Q/     -> backwards: line 3 found from line 4, range 3,4; direction -1 stays
+     /baz/s/x/y/        -> the search fails: nothing changes, "baz" is remembered and not "x"
+     /foo/s/x/y/ and then 4s//z/  -> the second command reuses "x" on line 4 *)
+Fixpoint prefix_b (p s : bytes) : bool :=
+  match p, s with [], _ => true | x :: p', y :: s' => (x =? y) && prefix_b p' s' | _ :: _, [] => false end.
+Fixpoint find_lit_at (pat ln : bytes) (i : Z) : option (list grp) :=
+  match ln with
+  | [] => None
+  | _ :: r => if prefix_b pat ln then Some [(i, (i + Z.of_nat (length pat))%Z)] else find_lit_at pat r (i + 1)%Z
+  end.
+Definition find_lit (pat ln : bytes) (nb : bool) : option (list grp) := find_lit_at pat ln 0%Z.
+Definition k_none : kst := mk_kst [] 0%Z [] 0%Z.
+Definition buf4 : list bytes := [[116; 111; 112; 10]; [120; 32; 102; 111; 111; 32; 120; 10]; [120; 32; 98; 97; 114; 32; 120; 10]; [120; 32; 102; 111; 111; 32; 120; 10]].
+Example C14_addr_nonvacuous :
+  ec_subst (fun _ => true) find_lit buf4 [47; 102; 111; 111; 47] [47; 120; 47; 121; 47] k_none = Some (mk_kst [120] 1%Z [121] 0%Z, [[116; 111; 112; 10]; [121; 32; 102; 111; 111; 32; 120; 10]; [120; 32; 98; 97; 114; 32; 120; 10]; [120; 32; 102; 111; 111; 32; 120; 10]], 0%Z) /\
+  ec_subst (fun _ => true) find_lit buf4 [47; 102; 111; 111; 47] [47; 47; 121; 47] k_none = Some (mk_kst [102; 111; 111] 1%Z [121] 0%Z, [[116; 111; 112; 10]; [120; 32; 121; 32; 120; 10]; [120; 32; 98; 97; 114; 32; 120; 10]; [120; 32; 102; 111; 111; 32; 120; 10]], 0%Z) /\
+  ec_subst (fun _ => true) find_lit buf4 [49; 44; 47; 98; 97; 114; 47] [47; 120; 47; 121; 47; 103] k_none = Some (mk_kst [120] 1%Z [121] 0%Z, [[116; 111; 112; 10]; [121; 32; 102; 111; 111; 32; 121; 10]; [121; 32; 98; 97; 114; 32; 121; 10]; [120; 32; 102; 111; 111; 32; 120; 10]], 0%Z) /\
+  ec_subst (fun _ => true) find_lit buf4 [47; 102; 111; 111; 47; 59; 47; 98; 97; 114; 47] [47; 47; 90; 47] k_none = Some (mk_kst [98; 97; 114] 1%Z [90] 1%Z, [[116; 111; 112; 10]; [120; 32; 102; 111; 111; 32; 120; 10]; [120; 32; 90; 32; 120; 10]; [120; 32; 102; 111; 111; 32; 120; 10]], 0%Z) /\
+  ec_subst (fun _ => true) find_lit buf4 [52; 59; 63; 98; 97; 114; 63; 44; 46] [47; 47; 81; 47] k_none = Some (mk_kst [98; 97; 114] (-1)%Z [81] 3%Z, [[116; 111; 112; 10]; [120; 32; 102; 111; 111; 32; 120; 10]; [120; 32; 81; 32; 120; 10]; [120; 32; 102; 111; 111; 32; 120; 10]], 0%Z) /\
+  ec_subst (fun _ => true) find_lit buf4 [47; 98; 97; 122; 47] [47; 120; 47; 121; 47] k_none = Some (mk_kst [98; 97; 122] 1%Z [] 0%Z, buf4, 1%Z) /\
+  ec_subst (fun _ => true) find_lit [[116; 111; 112; 10]; [121; 32; 102; 111; 111; 32; 120; 10]; [120; 32; 98; 97; 114; 32; 120; 10]; [120; 32; 102; 111; 111; 32; 120; 10]] [52] [47; 47; 122; 47] (mk_kst [120] 1%Z [121] 0%Z) = Some (mk_kst [120] 1%Z [122] 0%Z, [[116; 111; 112; 10]; [121; 32; 102; 111; 111; 32; 120; 10]; [120; 32; 98; 97; 114; 32; 120; 10]; [122; 32; 102; 111; 111; 32; 120; 10]], 0%Z) /\
+  a_region (fun _ => true) find_lit buf4 [47; 102; 111; 111; 47] k_none = Some (false, 1%Z, 2%Z, mk_kst [102; 111; 111] 1%Z [] 0%Z) /\
+  a_region (fun _ => true) find_lit buf4 [50] k_none = Some (false, 1%Z, 2%Z, k_none).
+Proof. vm_compute. repeat split; reflexivity. Qed.
